@@ -88,7 +88,7 @@ class StmtGen:
         r = self.r
         opts = ["assign"] * 3 + ["aug"] * 3 + ["decl"] * 2 + ["assert"] * 2 + ["pass"]
         if depth > 0:
-            opts += ["if"] * 4 + ["for"] * 3
+            opts += ["if"] * 4 + ["for"] * 3 + (["forb"] * 2 if BOUND_LOOPS else [])
         k = r.choice(opts)
         d = r.choice([0, 1, 1, 2])
         if k in ("assign", "aug"):
@@ -145,7 +145,35 @@ class StmtGen:
             self.locals[:] = saved
             self.loopvars.discard(i)
             return S("for", i=i, t=t, lo=lo, rounds=rounds, one_arg=(lo == 0 and r.random() < 0.6), body=body)
+        if k == "forb":
+            t = r.choice(self.int_types() or [(32, False)])
+            bound = r.randint(1, 4)
+            one_arg = r.random() < 0.3
+            if one_arg:
+                a = X("int", t, v=0)
+                b = self.g.int_expr(t, r.choice([0, 1]), allow_lit=False)
+            else:
+                a = self.g.int_expr(t, r.choice([0, 0, 1]), allow_lit=False)
+                if r.random() < 0.65:
+                    b = X("bin", t, op="BAdd", a=a, b=X("int", t, v=r.randint(0, bound + 1)))
+                else:
+                    b = self.g.int_expr(t, r.choice([0, 1]), allow_lit=False)
+            if a.k == "int" and not one_arg or b.k == "int":
+                return S("pass")
+            self.ni += 1
+            i = f"i{self.ni}"
+            self.declared.append(i)
+            saved = list(self.locals)
+            self.locals.append((i, t))
+            self.loopvars.add(i)
+            body = self.block(depth - 1, True, ret_ty=ret_ty)
+            self.locals[:] = saved
+            self.loopvars.discard(i)
+            return S("forb", i=i, t=t, a=a, b=b, bound=bound, one_arg=one_arg, body=body)
         return S("pass")
+
+
+BOUND_LOOPS = True
 
 
 def terminates(stmts):
@@ -203,6 +231,10 @@ def vy_block(stmts, ind):
             rng_ = f"range({s.rounds})" if s.one_arg else f"range({s.lo}, {s.lo + s.rounds})"
             out.append(f"{pad}for {s.i}: {ty_vy(s.t)} in {rng_}:")
             out += vy_block(s.body, ind + 1)
+        elif k == "forb":
+            rng_ = f"range({vy(s.b)}, bound={s.bound})" if s.one_arg else f"range({vy(s.a)}, {vy(s.b)}, bound={s.bound})"
+            out.append(f"{pad}for {s.i}: {ty_vy(s.t)} in {rng_}:")
+            out += vy_block(s.body, ind + 1)
         else:
             raise ValueError(k)
     return out
@@ -232,6 +264,8 @@ def coq_stmt(s):
         return f"SIf {coq_expr(s.c)} {coq_block(s.a)} {coq_block(s.b)}"
     if k == "for":
         return f'SFor "{s.i}" {zl(s.lo)} {s.rounds} {coq_block(s.body)}'
+    if k == "forb":
+        return f'SForB "{s.i}" {nty(s.t)} {coq_expr(s.a)} {coq_expr(s.b)} {zl(s.bound)} {coq_block(s.body)}'
     raise ValueError(k)
 
 
@@ -241,7 +275,7 @@ def count_stmts(stmts, acc):
         if s.k == "if":
             count_stmts(s.a, acc)
             count_stmts(s.b, acc)
-        elif s.k == "for":
+        elif s.k in ("for", "forb"):
             count_stmts(s.body, acc)
 
 
@@ -279,6 +313,19 @@ def py_block(stmts, env):
             raise _Ret(py_eval(s.e, env))
         elif k == "if":
             py_block(s.a if py_eval(s.c, env) else s.b, env)
+        elif k == "forb":
+            va = py_eval(s.a, env)
+            vb = py_eval(s.b, env)
+            if va > vb or vb - va > s.bound:
+                raise _Rev()
+            for iv in range(va, vb):
+                env[s.i] = iv
+                try:
+                    py_block(s.body, env)
+                except _Cnt:
+                    continue
+                except _Brk:
+                    break
         elif k == "for":
             for iv in range(s.lo, s.lo + s.rounds):
                 env[s.i] = iv
@@ -575,6 +622,20 @@ def part_vstmt(ctx, deps=None):
             bad = [s for s, r in zip(samples, res) if r != [1]]
             stats["equal"] = len(samples) - len(bad)
             stats["different"] = len(bad)
+            # search: more inputs for the differing bodies
+            for s in ([] if found else sorted(bad, key=lambda s_: len(s_["src"]))[:8]):
+                if found >= 2:
+                    break
+                try:
+                    ff, n = differential(s, ctx.rng("vstmt-search:" + s["src"]), tries=24)
+                except Exception:  # noqa
+                    ff, n = None, 0
+                stats["evm_runs"] += n
+                if ff is not None:
+                    found += 1
+                    stats["evm_mismatches"] += 1
+                    ctx.violation("failing-input", "the Venom pipeline miscompiles a function body (statements over int/bool locals)", ff,
+                                  key="vstmt:" + str(hash(s["src"]) % 10 ** 8))
             for s in ([] if found else sorted(bad, key=lambda s_: len(s_["src"]))[:2]):
                 ctx.violation("theorem-broken", "vstmt_compile_correct does not apply: the Venom front end's blocks for a function body "
                               "differ from the model VStmt.slower",
